@@ -144,7 +144,7 @@ func shapesOf(vs []*jval) string {
 	var b strings.Builder
 	for i, v := range vs {
 		if i > 0 {
-			b.WriteByte('\n')
+			b.WriteString(" / ")
 		}
 		v.shape(&b)
 	}
